@@ -192,6 +192,7 @@ def tlc(
     cmd = [
         "java",
         f"-Xmx{heap}",
+        "-Xss512m",
         "-XX:+UseSerialGC" if str(workers) == "1" else "-XX:+UseParallelGC",
         f"-DTLA-Library={SPEC}",
     ]
@@ -349,6 +350,7 @@ class Report:
         self.extra: dict = {}
         self.findings = load_findings(prop)
         self.matchers: dict = {}
+        self.clauses: dict[str, int] = {}
 
     # -- model checking runs
     def add_mc(self, name: str, res: TlcResult, **kw):
@@ -390,6 +392,7 @@ class Report:
                 self.known[f["id"]] = self.known.get(f["id"], 0) + 1
                 return
         self.violations.append({"trace": trace, "clause": clause, "detail": detail})
+        self.clauses[clause] = self.clauses.get(clause, 0) + 1
 
     def finish(self) -> int:
         wall = time.time() - self.t0
@@ -415,6 +418,8 @@ class Report:
                 print(f"VIOLATION property={self.prop} replay={p}  clause={v['clause']} {str(v.get('detail'))[:200]}")
             if len(self.violations) > 20:
                 print(f"... {len(self.violations) - 20} further violations not written")
+        if self.clauses:
+            print(f"[{self.prop}] rejected clauses: {self.clauses}")
         total = self.accepts + sum(self.skips.values()) + len(self.violations) + sum(self.known.values())
         cov = {
             "states": max(self.states, 1),
@@ -425,6 +430,7 @@ class Report:
             "accepted": self.accepts,
             "skipped": self.skips,
             "known_findings_seen": self.known,
+            "rejected_clauses": self.clauses,
             "tlc_runs": self.runs,
             "notes": self.notes,
         }
